@@ -41,6 +41,7 @@ ENTRY = {  # parameter types of the API functions (the helpers' types are inferr
     "uuid_to_short_str": ["uuid"],
     "uuid_from_str": ["str"],
 }
+ENTRY_RET = {"uuid_from_short_str": "uuid", "uuid_to_short_str": "str", "uuid_from_str": "uuid"}
 PREFIX = "T_"      # translated module-level names
 VPREFIX = "v_"     # translated local names
 
@@ -50,6 +51,9 @@ EXC_CATCH = dict({k: [v] for k, v in EXC_RAISE.items()},
                  LookupError=["KeyErr", "IndexErr"],
                  Exception=["ValueErr", "KeyErr", "IndexErr", "AssertErr", "AttrErr", "TypeErr", "OtherErr"])
 IDENT = re.compile(r"^[A-Za-z_][A-Za-z0-9_]*$")
+# names whose builtin meaning the translator relies on: the module must not rebind them
+RESERVED = {"len", "divmod", "isinstance", "list", "dict", "reversed", "enumerate", "range", "zip", "str", "int",
+            "uuid", "True", "False", "None"} | set(EXC_CATCH)
 
 
 class Unsupported(Exception):
@@ -243,6 +247,9 @@ class Fn:
 
     def cond(self, e, env, k, po=False):
         """expression in a boolean position -> k(bool term, 'bool')"""
+        if isinstance(e, ast.BoolOp):
+            return self.boolop(e, list(e.values), env, k, po, False)
+
         def conv(t, ty):
             if ty == "bool":
                 return k(t, "bool")
@@ -290,7 +297,7 @@ class Fn:
                 return self.expr(e.operand, env, minus, po)
             bad(e, "unary operator")
         if isinstance(e, ast.BoolOp):
-            return self.boolop(e, list(e.values), env, k, po)
+            return self.boolop(e, list(e.values), env, k, po, True)
         if isinstance(e, ast.Compare):
             return self.compare(e, env, k, po)
         if isinstance(e, ast.IfExp):
@@ -340,20 +347,32 @@ class Fn:
             return k(f"(py_str_mul {y} {x})", "str")
         bad(e, f"operator on {tx} and {ty}")
 
-    def boolop(self, e, values, env, k, po):
+    def boolop(self, e, values, env, k, po, strict):
+        """strict: the value of `a or b` is used as a value, where Python yields one of the OPERANDS:
+        only bool operands are translated then; in a boolean position truthiness is enough"""
         is_or = isinstance(e.op, ast.Or)
         first, rest = values[0], values[1:]
+
+        def operand(x, kk, po_):
+            if not strict:
+                return self.cond(x, env, kk, po_)
+
+            def only_bool(t, ty):
+                if ty != "bool":
+                    bad(e, f"`and` / `or` used as a value with an operand of type {ty}")
+                return kk(t, ty)
+            return self.expr(x, env, only_bool, po_)
         if not rest:
-            return self.cond(first, env, k, po)
+            return operand(first, k, po)
 
         def k1(a, _):
             if a == ("true" if is_or else "false"):
                 return k(a, "bool")           # short circuit: the rest is never evaluated
             if a == ("false" if is_or else "true"):
-                return self.boolop(e, rest, env, k, po)
+                return self.boolop(e, rest, env, k, po, strict)
             try:
                 box = []
-                out = self.boolop(e, rest, env, lambda t, ty: (box.append(t), "<HOLE>")[1], True)
+                out = self.boolop(e, rest, env, lambda t, ty: (box.append(t), "<HOLE>")[1], True, strict)
                 if out != "<HOLE>":
                     bad(e, "internal: boolean operand was wrapped")
                 b = box[0]
@@ -361,11 +380,11 @@ class Fn:
             except Impure:
                 if po:
                     raise
-                inner = self.boolop(e, rest, env, lambda t, ty: f"Ok {t}", False)
+                inner = self.boolop(e, rest, env, lambda t, ty: f"Ok {t}", False, strict)
                 x = self.fresh()
                 comp = f"if {a} then Ok true else\n{ind(inner)}" if is_or else f"if {a} then\n{ind(inner)}\nelse Ok false"
                 return f"bind ({comp}) (fun {x} =>\n{k(x, 'bool')})"
-        return self.cond(first, env, k1, po)
+        return operand(first, k1, po)
 
     def cmp1(self, e, op, a, b):
         (x, tx), (y, ty) = a, b
@@ -693,7 +712,11 @@ class Fn:
                 bad(s, "augmented assignment target")
             load = ast.copy_location(ast.Name(id=s.target.id, ctx=ast.Load()), s)
             value = ast.copy_location(ast.BinOp(left=load, op=s.op, right=s.value), s)
-            return self.expr(value, env, lambda t, ty: self.assign(s.target, t, ty, env, cont, s))
+            def aug(t, ty):
+                if ty != "int" and ty != "str":
+                    bad(s, f"augmented assignment on {ty} (mutates the object in place)")
+                return self.assign(s.target, t, ty, env, cont, s)
+            return self.expr(value, env, aug)
         if isinstance(s, ast.If):
             def branch(c, _):
                 if c == "true":
@@ -890,7 +913,8 @@ class Fn:
 
 
 class Module:
-    def __init__(self, source):
+    def __init__(self, source, entry=None):
+        self.entry = entry or ENTRY
         try:
             self.tree = ast.parse(source)
         except SyntaxError as e:
@@ -899,7 +923,7 @@ class Module:
         self.const_defs = []
         self.funcs = {}
         self.imports_uuid = False
-        self.sigs = dict(ENTRY)
+        self.sigs = dict(self.entry)
         self.done = {}            # name -> return type
         self.in_progress = []
         self.func_defs = []
@@ -932,6 +956,9 @@ class Module:
                 self.module_names.add(n.name)
             elif isinstance(n, ast.Assign):
                 self.module_names |= set(assigned_names([n]))
+        clash = sorted(self.module_names & RESERVED)
+        if clash:
+            raise Unsupported(f"ak/short_uuid.py rebinds {', '.join(clash)} at module level")
         self.module_names.add("uuid")
         const_fn = Fn(self, ast.parse("def _module_(): pass").body[0], [])
         for i, n in enumerate(body):
@@ -969,11 +996,13 @@ class Module:
             raise Unsupported("ak/short_uuid.py does not `import uuid`")
         # a function body sees every module constant: all of them must be defined before any call can happen,
         # which holds because module level contains no calls of the module's own functions (checked by `pure`)
-        for name in ENTRY:
+        for name in self.entry:
             if name not in self.funcs:
                 raise Unsupported(f"API function {name} is missing")
-        for name in ENTRY:
-            self.function(name, self.funcs[name])
+        for name in self.entry:
+            rt = self.function(name, self.funcs[name])
+            if self.entry is not SELFTEST_ENTRY and rt != ENTRY_RET.get(name, rt):
+                bad(self.funcs[name], f"{name} returns {rt}, {ENTRY_RET[name]} expected")
         for name, node in self.funcs.items():
             if name not in self.done:
                 bad(node, f"{name} is never called from the API functions (parameter types unknown)")
@@ -982,13 +1011,175 @@ class Module:
                   "   Python-level signatures:\n" + "\n".join(sig_lines) + " *)\n"
                   "From Coq Require Import ZArith List Bool.\n"
                   "From AK Require Import Common.Err C20.PyLib.\n"
-                  "Import ListNotations.\nOpen Scope Z_scope.\n\n")
+                  "Import ListNotations.\nOpen Scope Z_scope.\n\n"
+                  "Definition translation_available : bool := true.\n\n")
         return header + "\n\n".join(self.const_defs + self.func_defs) + "\n"
 
 
-def translate(source):
-    return Module(source).run()
+def translate(source, entry=None):
+    return Module(source, entry).run()
+
+
+def stub(reason):
+    """what is written to coq/gen/C20_Translated.v when the source leaves the subset: the API functions with their
+    types and no content, and the flag that makes coq/C20/TransEq.v fail at its first lemma and coq/C20/Run.v compare
+    the hand model alone (instead of a stale translation of some other text)"""
+    reason = reason.replace("*)", "* )").replace("(*", "( *")
+    return ("(* generated by harness/props/c20_translate.py -- do not edit.\n"
+            "   ak/short_uuid.py is OUTSIDE the translator's subset: " + reason + " *)\n"
+            "From Coq Require Import ZArith List Bool.\n"
+            "From AK Require Import Common.Err C20.PyLib.\n"
+            "Import ListNotations.\nOpen Scope Z_scope.\n\n"
+            "Definition translation_available : bool := false.\n\n"
+            "Definition T_uuid_from_short_str (L : uuid_lib) (fuel : nat) (v : pyobj) : res (UUID L) := Err OtherErr.\n"
+            "Definition T_uuid_to_short_str (L : uuid_lib) (fuel : nat) (v : UUID L) : res (list Z) := Err OtherErr.\n"
+            "Definition T_uuid_from_str (L : uuid_lib) (fuel : nat) (v : list Z) : res (UUID L) := Err OtherErr.\n")
+
+
+# ---------------------------------------------------------------------------------------------------------
+# self test of the translator + coq/C20/PyLib.v (not part of bin/check; `python -m harness.props.c20_translate --selftest`):
+# a module that exercises the supported constructs is translated, the translated functions are evaluated by
+# coqc (vm_compute) and compared with what CPython does on the same arguments (value or exception class).
+SELFTEST_SRC = """
+import uuid
+_T = list("abc")
+_D = dict((c, i) for i, c in enumerate(_T + _T))
+_E = {c: i * 2 for i, c in enumerate(_T, 5) if i != 6}
+_N = 3
+
+def f_arith(a, b):
+    q, r = divmod(a, b)
+    return q * 1000 + r * 10 + a // b - a % b + (a ** 2) + (1 << 3) - (-a)
+
+def f_index(s, i):
+    return s[i] + _T[i]
+
+def f_slice(s, i, j):
+    return s[i:j] + "|" + s[i:] + "|" + s[:j] + "|" + s[::-1]
+
+def f_strip(s, c):
+    return s.strip(c) + "|" + s.lstrip(c) + "|" + s.rstrip(c)
+
+def f_just(s, n):
+    return s.rjust(n, "*") + s.ljust(n, "-") + s.rjust(n) + s * n + n * s
+
+def f_dict(s):
+    return _D[s] * 10 + _E[s]
+
+def f_try(s, i):
+    try:
+        x = _D[s]
+        y = _T[i]
+        if x > 4:
+            return 100
+    except KeyError:
+        return -1
+    except (IndexError, ValueError) as err:
+        raise TypeError("x") from err
+    return x + len(y)
+
+def f_try2(s):
+    try:
+        assert len(s) > 1, "short"
+        n = _T.index(s[1])
+    except LookupError:
+        n = -5
+    except Exception:
+        raise
+    return n
+
+def f_bool(a, b):
+    if a > 0 and 10 // a > b or not b:
+        return 1
+    ok = a == b or 7 % a == 0
+    return 0 if ok else 2
+
+def f_loop(n):
+    total = 0
+    i = 0
+    while i < n:
+        for j in range(i, n):
+            total += j * (1 if j % 2 else -1)
+        i += 1
+    return total
+
+def f_join(s):
+    t = "-".join(reversed(s)) + "".join(c + c for c in s if c != "a")
+    for k, (c, d) in enumerate(zip(s, s[1:])):
+        if c in _T and d not in _D and 0 <= k < _N:
+            t += c + d
+    return t
+
+def f_uuid(n):
+    u = uuid.UUID(int=n)
+    return u.int + 1
+
+def f_call(s, i):
+    return f_dict(s) + f_loop(i)
+"""
+SELFTEST_ENTRY = {"f_arith": ["int", "int"], "f_index": ["str", "int"], "f_slice": ["str", "int", "int"],
+                  "f_strip": ["str", "str"], "f_just": ["str", "int"], "f_dict": ["str"], "f_try": ["str", "int"],
+                  "f_try2": ["str"], "f_bool": ["int", "int"], "f_loop": ["int"], "f_join": ["str"], "f_uuid": ["int"],
+                  "f_call": ["str", "int"]}
+
+
+def selftest(workdir="/tmp/c20_translate_selftest"):
+    import itertools
+    import os
+    import subprocess
+    from harness.lib import sx as SX
+    coq = os.path.join(os.path.dirname(os.path.dirname(os.path.dirname(os.path.abspath(__file__)))), "coq")
+    ints = [-7, -3, -1, 0, 1, 2, 3, 5, 10]
+    strs = ["", "a", "b", "c", "d", "ab", "abc", "xxabxx", "cabbage", "é\U0001f600a"]
+    args = {"int": ints, "str": strs}
+    ns = {}
+    exec(SELFTEST_SRC, ns)
+    text = translate(SELFTEST_SRC, SELFTEST_ENTRY)
+    lines, want = [], []
+    for f, ptypes in SELFTEST_ENTRY.items():
+        rstr = None
+        for vals in itertools.product(*[args[t] for t in ptypes]):
+            if f == "f_just" and vals[1] > 5:
+                continue
+            try:
+                r = ns[f](*vals)
+                exp = SX.ok(r) if isinstance(r, int) else SX.ok(SX.s(r))
+                rstr = isinstance(r, str)
+            except Exception as e:  # noqa
+                exp = SX.err("OtherError" if isinstance(e, (ZeroDivisionError, OverflowError)) else SX.exc_name(e))
+            want.append((f, vals, SX.dumps(exp)))
+        enc = "sx_str" if rstr else "SZ"
+        for ff, vals, _ in [w for w in want if w[0] == f]:
+            a = " ".join(SX.cZ(v) if isinstance(v, int) else SX.cstr(v) for v in vals)
+            lines.append(f"sx_res {enc} ({PREFIX}{f} L0 40 {a})")
+    os.makedirs(workdir, exist_ok=True)
+    with open(os.path.join(workdir, "SelfTest.v"), "w") as fh:
+        fh.write(text)
+        fh.write("From AK Require Import Common.Sx.\nFrom Coq Require Import String.\nOpen Scope Z_scope.\n"
+                 "Definition L0 : uuid_lib := {| UUID := Z; UUID_of_int := fun n => if (0 <=? n) && (n <? 2 ^ 128) then Ok n else Err ValueErr;\n"
+                 "  UUID_of_str := fun _ => Err ValueErr; UUID_int := fun u => u |}.\n"
+                 "Set Printing Width 1000000.\nSet Printing Depth 1000000.\n"
+                 + "".join("Eval vm_compute in (show_lines [\n" + ";\n".join(lines[i:i + 100]) + "\n]).\n"
+                           for i in range(0, len(lines), 100)))
+    p = subprocess.run(["timeout", "600", "coqc", "-R", coq, "AK", "-top", "SelfTest", "SelfTest.v"], cwd=workdir,
+                       capture_output=True, text=True)
+    if p.returncode != 0:
+        print(p.stdout[-3000:], p.stderr[-3000:])
+        return 1
+    got = []
+    for chunk in re.findall(r'=\s*"(.*?)"\s*:\s*string', p.stdout, re.S):
+        got += chunk.split("\n")[:-1]
+    bad_ = 0
+    for (f, vals, exp), g in zip(want, got):
+        if exp.strip() != g.strip():
+            bad_ += 1
+            if bad_ <= 20:
+                print(f"MISMATCH {f}{vals}: python {exp}   coq {g}")
+    print(f"selftest: {len(want)} calls of {len(SELFTEST_ENTRY)} functions compared, {bad_} mismatches")
+    return 1 if bad_ or len(got) != len(want) else 0
 
 
 if __name__ == "__main__":
+    if sys.argv[1:2] == ["--selftest"]:
+        sys.exit(selftest())
     sys.stdout.write(translate(open(sys.argv[1]).read()))
